@@ -264,4 +264,53 @@ example : ¬ Inside [47, 115, 114, 118, 47, 102, 116, 112] [47, 115, 114, 118, 4
   revert this
   decide
 
+/-! ### names are passed on verbatim (white-box mutation audit: decorated dot segments) -/
+
+theorem segLoop_verbatim (pieces : List Seg) : ∀ (segs sg : List Seg), segLoop segs pieces = some sg →
+    ∀ s ∈ sg, s ∈ segs ∨ s ∈ pieces := by
+  induction pieces with
+  | nil => intro segs sg h s hs; simp [segLoop] at h; subst h; exact Or.inl hs
+  | cons p rest ih =>
+    intro segs sg h s hs
+    simp only [segLoop] at h
+    cases hstep : segStep segs p with
+    | none => simp [hstep] at h
+    | some segs' =>
+      simp only [hstep] at h
+      have hsub : ∀ x ∈ segs', x ∈ segs ∨ x = p := by
+        intro x hx
+        unfold segStep at hstep
+        split at hstep
+        · cases hstep; exact Or.inl hx
+        · split at hstep
+          · split at hstep
+            · cases hstep; exact Or.inl ((List.dropLast_sublist segs).subset hx)
+            · cases hstep
+          · split at hstep
+            · cases hstep
+            · cases hstep
+              rcases List.mem_append.mp hx with h1 | h1
+              · exact Or.inl h1
+              · exact Or.inr (by simpa using h1)
+      rcases ih segs' sg h s hs with h1 | h1
+      · rcases hsub s h1 with h2 | h2
+        · exact Or.inl h2
+        · exact Or.inr (by simp [h2])
+      · exact Or.inr (List.mem_cons_of_mem _ h1)
+
+/-- `toSegments` never rewrites a name: every segment it returns is, byte for byte, a segment of the working
+    directory or one of the `/`-separated pieces of the argument (so a decorated dot-dot such as `..\r`, `.\xff.`,
+    `..%2f..` is passed on verbatim as an ordinary name, never as `..`). -/
+theorem toSegments_verbatim (cwd : List Seg) (path : Bytes) (sg : List Seg)
+    (h : toSegments cwd path = some sg) : ∀ s ∈ sg, s ∈ cwd ∨ s ∈ splitSlash path := by
+  intro s hs
+  unfold toSegments at h
+  rcases segLoop_verbatim _ _ _ h s hs with h1 | h1
+  · split at h1
+    · simp at h1
+    · exact Or.inl h1
+  · exact Or.inr h1
+
+example : toSegments [[97]] [46, 46, 13, 47, 46, 0xFF, 46, 47, 46, 46, 37, 50, 102, 120] =
+    some [[97], [46, 46, 13], [46, 0xFF, 46], [46, 46, 37, 50, 102, 120]] := by decide
 end TwistedProps.C54
